@@ -435,10 +435,13 @@ def correspond(ctx):
     from nmea2000.consts import PhysicalQuantities as PQ
     decs.append(new_decoder(build_network_map=True, preferred_units={PQ.TEMPERATURE: "C", PQ.ANGLE: "deg", PQ.SPEED: "KTS",
                                                                       PQ.PRESSURE: "psi"}))
-    flags = [True, True, False, True]
+    # network mapping OFF together with manufacturer lists (which also consult the source map): still no hash
+    decs.append(new_decoder(build_network_map=False, exclude_manufacturer_code=["Navico"]))
+    decs.append(new_decoder(build_network_map=False, include_manufacturer_code=["Garmin"], exclude_pgns=[130306]))
+    flags = [True, True, False, True, False, False]
     cases, raw, msgs = [], [], []
     with Md5Proxy() as mp:
-        for dcd in decs[:2]:
+        for dcd in decs[:2] + decs[4:5]:
             decode(dcd, *CLAIM, src=1)          # source 1 has a claimed identity, the others do not
         for d, p, n, kw, i, m in messages(ctx, rng, ctx.n(1, 6), ctx.n(1, 6), decs):
             msgs.append((d, p, n, kw, i, m))
@@ -577,6 +580,15 @@ def _check_pair(a, b):
     off = run(a, net=False)
     if off is not None and not isinstance(off, Exception) and off.hash is not None:
         return {**base, "key": "hash:set-without-network-map", "what": f"PGN {a['pgn']}: hash set with build_network_map=False"}
+    for extra in ({"exclude_manufacturer_code": ["Navico"]}, {"include_manufacturer_code": ["Garmin"]}, {"exclude_pgns": [130306]}):
+        dec = new_decoder(build_network_map=False, **extra)
+        if "exclude_manufacturer_code" in extra:
+            decode(dec, *CLAIM, src=a.get("src", 1))
+        by = bytes.fromhex(a["payload"])
+        off = decode(dec, a["pgn"], int.from_bytes(by, "little"), len(by), **{k: a[k] for k in ("src", "dst", "prio", "ts") if k in a})
+        if off is not None and not isinstance(off, Exception) and off.hash is not None:
+            return {**base, "key": "hash:set-without-network-map",
+                    "what": f"PGN {a['pgn']}: hash set with build_network_map=False and {extra}"}
     da, dbb = _find_def(a["pgn"], ma.id), _find_def(b["pgn"], mb.id)
     if da is None or dbb is None:
         return None
